@@ -50,6 +50,15 @@ CLAIMED.update({
          LEDGER_NOTE + " The argument-payload quantifier is only covered as far as the workload's generated calls reach (boundary amounts, wrong actors, unbound names).", "5 C11"),
 })
 
+CLAIMED.update({
+ "C01": ("exploration", "deterministic simulation: every transaction of a seeded history re-executed under variant configurations (seeded hash universes via hook H1, diagnostic flags, cold code cache, other store implementation, fresh process with kernel trace) and on real threads serialised by a seeded scheduler at code-cache (hook H2) and database-read scheduling points; byte comparison with the reference execution",
+         "For every transaction of seeded histories (with injected faults) the reference execution is compared byte for byte (outcome, state updates, events, logs, fee summary/source/destination, summary, nullifications) with re-executions in other hash universes, under diagnostic flag combinations, with a cold VM, over an overlay store, on 2-4 interleaved threads sharing a cold code cache (schedules recorded and replayable), and in a fresh process with kernel tracing enabled.",
+         LEDGER_NOTE + " Threads are serialised between scheduling points; races inside wasmi/moka between truly parallel instructions are not claimed.", "5 C01"),
+ "C06": ("exploration", "deterministic simulation with fault injection: seeded histories with a dedicated fee payer, contingent/non-contingent lock patterns, tips over both specifier ranges and randomised costing parameters; fee probes sweep the lock amount through the exact need; oracle in exact integer arithmetic",
+         "For every commit: paid == execution+finalization+tip+storage+royalties == proposer+validator set+burn+royalties, cost == units x price, shares within 2 attos of the documented split, rewards vault delta, burn event, dedicated payer vault delta == reported payment, contingent-only vault untouched on failure, units within limits; lock amounts of exactly T and T -/+ a few attos must give a consistent commit or a reject, never a panic of the executor's fee assertions.",
+         LEDGER_NOTE + " The tip rounding is not fixed by the property: up to one atto per cost unit is tolerated.", "5 C06"),
+})
+
 PURE = "pure function of one input value: no schedule, clock, I/O, fault or history for a simulator to own (DESIGN section 6)"
 NOT_APPLICABLE = {
  "C16": "key mapping is a pure bijection on keys; " + PURE,
@@ -105,7 +114,7 @@ def main():
             "enable": "rustc --cfg radixdlt_radixdlt_scrypto_verif, set for every crate by /verif/sim/.cargo/config.toml (build.rustflags); /repo's own builds never set it",
             "baseline_off_cmd": BASELINE,
             "source_commits": hooks_commits,
-            "add_only": True,
+            "add_only": False,
         },
         "engines": [{
             "name": "verif-sim",
